@@ -381,6 +381,9 @@ public:
     virtual void setCredentials(const QXmpp::Private::Credentials &) = 0;
     virtual QXmpp::Private::SaslMechanism mechanism() const = 0;
     virtual std::optional<QByteArray> respond(const QByteArray &challenge) = 0;
+    /// Whether <success/> may be accepted now. Mechanisms that authenticate the server
+    /// return true only once the server's proof has been verified.
+    virtual bool isFinished() const { return true; }
 
     static bool isMechanismAvailable(QXmpp::Private::SaslMechanism, const QXmpp::Private::Credentials &);
     static std::unique_ptr<QXmppSaslClient> create(const QString &mechanism, QObject *parent = nullptr);
@@ -522,9 +525,11 @@ public:
     void setCredentials(const QXmpp::Private::Credentials &) override;
     QXmpp::Private::SaslMechanism mechanism() const override { return { m_mechanism }; }
     std::optional<QByteArray> respond(const QByteArray &challenge) override;
+    bool isFinished() const override { return m_serverVerified; }
 
 private:
     QXmpp::Private::SaslScramMechanism m_mechanism;
+    bool m_serverVerified = false;
     int m_step;
     QString m_password;
     uint32_t m_dklen;
